@@ -8,6 +8,7 @@ package rt
 
 import (
 	"bytes"
+	"encoding/gob"
 	"encoding/json"
 	"fmt"
 	"os"
@@ -161,7 +162,7 @@ func HasParam(name string) bool {
 	return ok
 }
 
-func Concretize(x int) int      { return x }
+func Concretize(x int) int       { return x }
 func ConcretizeByte(x byte) byte { return x }
 
 type assumeFailed struct{}
@@ -247,3 +248,47 @@ func And(a, b bool) bool     { return a && b }
 func Or(a, b bool) bool      { return a || b }
 func Not(a bool) bool        { return !a }
 func Implies(a, b bool) bool { return !a || b }
+
+// CloneViaGob copies src into dst through a gob encode/decode round trip
+// (the engine models it as a deep copy of exported fields).
+func CloneViaGob(dst, src any) error {
+	var buf bytes.Buffer
+	if err := gob.NewEncoder(&buf).Encode(src); err != nil {
+		return err
+	}
+	return gob.NewDecoder(&buf).Decode(dst)
+}
+
+// Model calls a function of the engine's environment model (no-op natively).
+func Model(name string, args ...int) int { return 0 }
+
+// TempDir returns a fresh empty directory ("/vN" on the in-memory file system in the engine).
+func TempDir() string {
+	d, err := os.MkdirTemp("", "gosym-replay-fs-")
+	if err != nil {
+		panic(err)
+	}
+	tempDirs = append(tempDirs, d)
+	return d
+}
+
+var tempDirs []string
+
+// Cleanup removes the directories handed out by TempDir (native replays only).
+func Cleanup() {
+	for _, d := range tempDirs {
+		os.RemoveAll(d)
+	}
+	tempDirs = nil
+}
+
+// SetParam sets an instance parameter from inside the harness (e.g. the copy buffer size of the FS model).
+func SetParam(name string, v int) {
+	Load()
+	mu.Lock()
+	if replay.Params == nil {
+		replay.Params = map[string]int{}
+	}
+	replay.Params[name] = v
+	mu.Unlock()
+}
